@@ -76,6 +76,16 @@ pub fn worker(tier: &str, k: usize, n: usize, ctx: &mut Ctx) {
     crate::set_current_case(&w);
     tc::cached_replay_twice(c, &w);
   });
+  {
+    let mut st = Striper::new(k, n);
+    props::for_each_wild_map_leaf(tier, &mut st, &mut |t| {
+      for w in props::wild_contexts(t) {
+        crate::set_current_case(&w);
+        sub.states += 1;
+        tc::all_methods_return(&mut sub, &w);
+      }
+    });
+  }
   let mut st = Striper::new(k, n);
   let mut cnt = 0u64;
   props::for_each_wild_combined(&mut st, &mut |t| {
